@@ -47,32 +47,41 @@ RULE = ("cases = interception plans (0-8 entries per family built by truncating 
 MANIFEST = dict(
     level_text=("Machine-checked Lean 4 theorems (core Lean, no sorry/axiom/native_decide) over a model of subnet_weight, "
                 "Python's stable sort and the four rule generators, for EVERY subnet list, port range, name-server list, "
-                "family and packet (induction over the sorted list / rule list, no enumeration). "
+                "family and packet (induction over the sorted list / rule list / command list, no enumeration). "
                 "Ordering: key order = the property's precedence (narrowest port range, longest prefix, exclusion wins "
                 "ties); first match of the descending sort / last match of the ascending sort is an include iff the most "
-                "specific matching entry is. Full verdict theorems (DNS to listed name servers, TCP by most specific "
-                "entry, other UDP only when forwarded, other family untouched, local vs forwarded): C03_nat (incl. "
-                "user/group marking), C03_nft (per inet table, nfproto guard), C03_pf (FreeBSD/Darwin and OpenBSD anchors: "
-                "last-match pass-out + rdr/divert-to on lo0), C03_tproxy_v4 (whole pipeline: mangle OUTPUT mark chain with "
-                "non-terminating MARK, policy routing on the mark, PREROUTING tproxy chain with -m socket/divert chain "
-                "and interleaved tcp/udp rules), C03_tproxy_chains_agree, C03_tproxy_local_destination. For IPv6 tproxy "
-                "the same theorem is C03_tproxy_partial with the known-finding class excluded by hypothesis "
-                "(Mask32Safe) and the negation witness C03_tproxy_dns_mask32_v6_false. Tied to the code on every run "
-                "by regenerated parameters (sort direction, weight shape, DNS port per method), a token-by-token "
-                "differential run of the real setup_firewall of nat/nft/tproxy/pf(FreeBSD, OpenBSD, Darwin), the real "
-                "firewall.main line protocol, stale-session cases on a stateful rule state, and an oracle that parses the "
-                "real argv / pf text and decides every cell of the arrangement."),
+                "specific matching entry is. Per-call verdict theorems (DNS to listed name servers, TCP by most specific "
+                "entry, other UDP only when forwarded, other family untouched, local vs forwarded, owner): C03_nat "
+                "(any destination), C03_nft, C03_pf (FreeBSD/Darwin and OpenBSD anchors), C03_tproxy_v4 / "
+                "C03_tproxy_partial (whole pipeline incl. non-terminating MARK, mark routing, -m socket, tcp/udp "
+                "interleaving; IPv6 with the known-finding class excluded by hypothesis Mask32Safe, negation witness "
+                "C03_tproxy_dns_mask32_v6_false), C03_tproxy_chains_agree. Whole-plan theorems: the rule state after "
+                "firewall.main's two setup_firewall calls (IPv6 then IPv4, inactive family skipped) gives for every "
+                "packet of either family the property's verdict on the whole plan - C03_nat_plan, C03_nft_plan, "
+                "C03_tproxy_plan_partial, C03_pf_plan (commands only write their own family's tables; a walk only reads "
+                "its own space). Stale state: C03_nft_stale_state and C03_nat_stale_state - set-up from ANY rule state in "
+                "which killed sessions left arbitrary old rules in the per-port chain and stale jump/owner rules yields "
+                "the NEW plan's verdicts; C03_nft_setup_leaves_other_tables / C03_nat_setup_touches_only_own_chains - "
+                "foreign chains are untouched. Local destinations: C03_tproxy_local_destination, "
+                "C03_nft_local_destination (only DNS to a listed name server is taken); for nat the analogous claim is "
+                "false (C03_nat_local_destination_can_be_diverted: LOCAL is the last rule) and C03_nat covers local "
+                "destinations as they are. Tied to the code on every run by regenerated parameters, a token-by-token "
+                "differential run of the real setup_firewall of nat/nft/tproxy/pf, the real FirewallClient -> "
+                "firewall.main line protocol, stale-session and pf-history cases on stateful rule states, and an oracle "
+                "that parses the real argv / pf text and decides every cell of the arrangement."),
     level_note=("Trusted: Lean kernel; the packet-walk environment model (netfilter first match, RETURN, non-terminating "
-                "MARK, REDIRECT/TPROXY/ACCEPT, jumps; pf last-match filter + first-match rdr, from the manual pages, "
-                "unvalidated: no pf in the sandbox); tproxy's documented policy routing (fwmark -> lo) and 'a new flow has "
-                "no local socket'; address text -> number by inet_pton. Theorems are per setup_firewall call (one "
-                "family); the composition of the two per-family calls made by firewall.main, the effect of commands on "
-                "a non-empty pre-existing rule state (stale sessions), pf's own-address/loopback-source cases and "
-                "nat/nft with a local destination are correspondence + oracle only. nft/tproxy/pf ignore user/group "
-                "(proved: C03_owner_ignored_by_nft_tproxy_pf; the client refuses the options for them, C15). Known "
-                "finding: tproxy renders DNS rules with /32 for IPv6 name servers too; recorded, not repaired, because "
-                "the repository's own test pins /32; the model follows the code as it is."),
-    technique="Lean 4 proof (sorted first/last-match lemma, key order = spec order, chain-walk induction) + differential correspondence + per-cell oracle on real rules",
+                "MARK, REDIRECT/TPROXY/ACCEPT, jumps; -N/-F/-I/-A and nft add/flush as state updates; pf last-match filter "
+                "+ first-match rdr, from the manual pages, unvalidated: no pf in the sandbox); tproxy's documented policy "
+                "routing (fwmark -> lo) and 'a new flow has no local socket'; address text -> number by inet_pton. The "
+                "stale-state theorems are about the rule-creating commands of setup_firewall; the restore_firewall prefix "
+                "of nat/tproxy set-up (it only deletes from the same objects) and command failures (-N on an existing "
+                "chain) are C04's model and, here, the stale-session oracle; stale state for tproxy and pf (anchor-call "
+                "history) and pf with a loopback source are correspondence + oracle only; there is no Lean-side argv "
+                "parser (the oracle parses the real argv in Python). nft/tproxy/pf ignore user/group (proved: "
+                "C03_owner_ignored_by_nft_tproxy_pf; the client refuses the options for them, C15). Known finding: "
+                "tproxy renders DNS rules with /32 for IPv6 name servers too; recorded, not repaired, because the "
+                "repository's own test pins /32; the model follows the code as it is."),
+    technique="Lean 4 proof (sorted first/last-match lemma, key order = spec order, chain-walk induction, command-list congruence) + differential correspondence + per-cell oracle on real rules",
 )
 DRIVER_TARGETS = ['SshuttleModel.Code.FwRules', 'SshuttleModel.Env.PacketWalk', 'SshuttleModel.Spec.MostSpecific']
 ASSUMPTIONS = [
